@@ -35,7 +35,7 @@ Definition sd_rank (p : sd_pc) : nat :=
   end.
 
 Definition rn_rank (p : rn_pc) : nat :=
-  match p with RnLaunched => 3 | RnRunning => 2 | RnSending _ => 1 | _ => 0 end.
+  match p with RnLaunched => 4 | RnStored => 3 | RnRunning => 2 | RnSending _ => 1 | _ => 0 end.
 
 Definition rm_rank (c : config) (p : rm_pc) : nat :=
   match p with
